@@ -283,6 +283,10 @@ mod inner {
         /// scope starts on the right of the first consumed item and might end before the end
         /// of the list, similarly for "commands"
         scope: Range<usize>,
+
+        /// set while `adjacent` looks for the start of a block: nested `construct!` parsers
+        /// must fail fast too, otherwise a later field can consume the probed item
+        pub(crate) failfast: bool,
     }
 
     impl State {
@@ -414,6 +418,7 @@ mod inner {
                 path,
                 #[cfg(feature = "autocomplete")]
                 comp,
+                failfast: false,
             }
         }
     }
